@@ -424,7 +424,7 @@ class Item:
         # `$1`..`$9` in the target stand for a place expression (identifiers joined by `.`); the same placeholder in
         # the replacement is filled with what was matched (the shim is applied to whatever vector the code names)
         toks = re.findall(r"\$\d|\w+|[^\w\s]", old)
-        pat = r"\s*".join((r"(?P<v%s>[A-Za-z_][\w]*(?:\s*\.\s*[A-Za-z_]\w*)*)" % t[1]) if re.match(r"\$\d$", t) else re.escape(t) for t in toks)
+        pat = r"\s*".join((r"(?P<v%s>[A-Za-z_]\w*(?:\[[^\]]*\])?(?:\s*\.\s*[A-Za-z_]\w*(?:\[[^\]]*\])?)*?)" % t[1]) if re.match(r"\$\d$", t) else re.escape(t) for t in toks)
         if re.match(r"\w", old):
             pat = r"\b" + pat
         if re.search(r"\w$", old):
@@ -741,17 +741,23 @@ class Item:
 
     def r3_for_iter(self, fn, k):
         """for X in ITER { BODY } where ITER is an iterator VALUE (IntoIterator is the identity on iterators)
-        ==>  let mut vx_it = ITER; loop { let Some(X) = vx_it.next() else { break; }; BODY }   (the definition of `for`)"""
+        ==>  let mut vx_it = ITER; loop { let Some(X) = vx_it.next() else { break; }; BODY }   (the definition of `for`);
+        ITER itself stays in place so that R4 shims can apply to it"""
         ls = self.loops(fn)
         if k > len(ls) or ls[k - 1][0] != "for":
             raise Undecided("LOST-ANCHOR: R3 for-iter loop %d of fn %s in %s" % (k, fn, self.where()))
         _, s, bopen, bclose = ls[k - 1]
-        mo = re.match(r"for\s+(.+?)\s+in\s+(.+?)\s*$", self.text[s:bopen], re.S)
+        mo = re.match(r"for\s+(.+?)\s+in\s+", self.text[s:bopen], re.S)
         if not mo:
             raise Undecided("R3 for-iter: header not recognised")
-        pat, recv = mo.group(1).strip(), mo.group(2).strip()
+        pat = mo.group(1).strip()
+        r0 = s + mo.end()
+        r1 = bopen
+        while self.text[r1 - 1].isspace():
+            r1 -= 1
         iv = "vx_it" if k == 1 else "vx_it%d" % k
-        self.rewrite(s, bopen + 1, "let mut %s = %s;/*@pre*/\n    loop\n    /*@loop*/\n    {\n      let Some(%s) = %s.next() else { break; };/*@body*/" % (iv, recv, pat, iv), "R3-for-iter")
+        self.rewrite(s, r0, "let mut %s = " % iv, "R3-for-iter")
+        self.rewrite(r1, bopen + 1, ";/*@pre*/\n    loop\n    /*@loop*/\n    {\n      let Some(%s) = %s.next() else { break; };/*@body*/" % (pat, iv), "R3-for-iter")
 
     def r3_for_by_ref(self, fn, k):
         """for X in RECV.by_ref() { BODY }  ==>  loop { let Some(X) = RECV.next() else { break; }; BODY }
